@@ -1,6 +1,8 @@
 package main
 
 import (
+	"math/rand"
+
 	"encoding/json"
 	"fmt"
 	"os"
@@ -179,6 +181,10 @@ func c19Child(spec string) {
 			local := make([]c19Draw, 0, per)
 			<-start
 			for k := 0; k < per; k++ {
+				if k%4096 == 0 { // other code in the process uses and reseeds the global math/rand source
+					rand.Seed(42)
+					_ = rand.Int63()
+				}
 				id := uu.RandomID()
 				t := atomic.AddInt64(&ticket, 1)
 				local = append(local, c19Draw{id, t})
@@ -372,6 +378,13 @@ func runC19(c *rt.Ctx) {
 		sub := filepath.Join(dir, name)
 		os.MkdirAll(sub, 0o755)
 		cmd := exec.Command(os.Args[0], "C19")
+		if strings.HasPrefix(name, "onecpu") { // the child sees exactly one usable CPU from its very start
+			if ts, err := exec.LookPath("taskset"); err == nil {
+				cmd = exec.Command(ts, "-c", "0", os.Args[0], "C19")
+			} else {
+				return c19Result{}, nil, "", fmt.Errorf("no-taskset")
+			}
+		}
 		cmd.Env = append(os.Environ(), "VERIF_C19_CHILD="+spec, "GORACE=halt_on_error=0 log_path="+filepath.Join(sub, "race"), "GOTRACEBACK=single")
 		var out, errb strings.Builder
 		cmd.Stdout, cmd.Stderr = &out, &errb
@@ -467,6 +480,8 @@ func runC19(c *rt.Ctx) {
 			}
 		}
 	}
+	// a process confined to one CPU (single-core container, taskset): code that counts CPUs at start-up takes other paths
+	jobs = append(jobs, &job{g: 8, procs: 4, rep: 0, name: "onecpu-g8-p4"}, &job{g: 2, procs: 1, rep: 0, name: "onecpu-g2-p1"})
 	{
 		sem := make(chan struct{}, 3) // a few children at a time: they also perturb each other's scheduling
 		var wg sync.WaitGroup
@@ -489,6 +504,10 @@ func runC19(c *rt.Ctx) {
 					g, procs, rep, name := j.g, j.procs, j.rep, j.name
 					res, blocks, stderr, err := j.res, j.blocks, j.stderr, j.err
 					args := rt.Args("goroutines", g, "gomaxprocs", procs, "repetition", rep, "draws", draws)
+					if err != nil && err.Error() == "no-taskset" {
+						c.Extra("single_cpu_child", "taskset not available: configuration skipped")
+						continue
+					}
 					if err != nil {
 						if err.Error() == "watchdog" {
 							c.Inconclusive("configuration " + name + " hit the watchdog")
@@ -541,7 +560,11 @@ func runC19(c *rt.Ctx) {
 						c.Inconclusive("configuration " + name + " showed no goroutine hand-off at all")
 					}
 					stats = append(stats, cfgStat{g, procs, rep, int64(res.Draws), res.Handoffs, res.MaxRun, res.Distinct, res.MinDistinctWindow, len(blocks)})
-					w.ClassN(fmt.Sprintf("config-G%d", g), 1)
+					if strings.HasPrefix(name, "onecpu") {
+						w.ClassN("config-single-cpu", 1)
+					} else {
+						w.ClassN(fmt.Sprintf("config-G%d", g), 1)
+					}
 					if g > 1 {
 						w.ClassN("concurrent-handoffs", res.Handoffs)
 					}
